@@ -395,7 +395,14 @@ struct Exec {
     }
     Violation v;
     v.prop = prop; v.kind = kind; v.site = site; v.detail = detail; v.op = cur_op; v.backend = be;
-    v.probe = probe || plan.early_free || plan.probe_reuse; // a probe run as a whole is non-gating
+    if (cur_target_struck && v.prop != "C17") {
+      // the object of this operation was struck by an allocation failure earlier: whatever goes wrong with it now
+      // is the consequence of that failure (C17: "... without touching invalid memory, the object can still be ...")
+      v.detail = "[" + v.prop + " on an object that was struck by an allocation failure before] " + v.detail;
+      v.kind = "after_oom_" + v.kind;
+      v.prop = "C17";
+    }
+    v.probe = probe || plan.early_free; // an early-free run as a whole is non-gating
     if (res.violations.size() < 64) res.violations.push_back(v);
   }
   void probe(const char *name) { res.stats.probes[name]++; }
@@ -446,7 +453,7 @@ struct Exec {
   void check_error_codes() {
     if (opt.raw || aborted) return;
     for (auto &o : objs)
-      if (o.alive && o.h && !(o.struck && !plan.probe_reuse)) {
+      if (o.alive && o.h) {
         int c = -999;
         int j = guarded([&] { c = api->error_code(o.h); });
         if (j) { aborted = true; return; }
@@ -665,7 +672,7 @@ struct Exec {
 
   void op_define(const Op &op, bool faulted_op) {
     ObjRec *o = obj_of(op.task, op.obj);
-    if (!o || !o->alive || (o->struck && !plan.probe_reuse)) { skip(op); return; }
+    if (!o || !o->alive || !o->h) { skip(op); return; }
     const GrammarSpec &g = plan.grammars[(size_t)op.grammar];
     bool was_defined = o->m.defined, had_failed = (!o->m.defined && o->m.gidx != -1);
     int rc = -999;
@@ -758,7 +765,7 @@ struct Exec {
 
   void op_parse(const Op &op) {
     ObjRec *o = obj_of(op.task, op.obj);
-    if (!o || !o->alive || (o->struck && !plan.probe_reuse)) { skip(op); return; }
+    if (!o || !o->alive || !o->h) { skip(op); return; }
     const std::vector<int> &in = plan.inputs[(size_t)op.input];
     // reader with its faults
     C.toks = in;
@@ -1132,8 +1139,10 @@ struct Exec {
     heap_begin_op(be, index, hf);
     sink_open();
     res.stats.ops++;
-    ObjRec *target = (op.kind == OP_CREATE || op.kind == OP_WALK || op.kind == OP_FREE_TREE) ? nullptr : obj_of(op.task, op.obj);
+    ObjRec *target = (op.kind == OP_CREATE || op.kind == OP_WALK || op.kind == OP_FREE_TREE || op.kind == OP_CONFIG) ? nullptr : obj_of(op.task, op.obj);
     int target_uid = target ? target->uid : -1;
+    cur_target_struck = target && target->struck;
+    if (cur_target_struck && op.kind != OP_FREE_GRAMMAR && op.kind != OP_ERRQ && op.kind != OP_SET) probe("object_used_again_after_oom");
     uint64_t pre = target ? (uint64_t)(target->m.defined * 2 + (target->m.err != 0)) * 16 + (uint64_t)target->m.set[0] : 99;
     switch (op.kind) {
     case OP_CREATE: op_create(op, hf); break;
@@ -1170,6 +1179,7 @@ struct Exec {
     if (target_uid >= 0) { prev_obj_uid = target_uid; prev_kind = (int)op.kind; }
   }
   int prev_kind = -1;
+  bool cur_target_struck = false;
   std::string cfg_now = "plan";
   // C09: parses of one (grammar, input, result-selecting flags) must agree whatever the lookahead level,
   // debug level and the simulator's internal choices were
@@ -1275,8 +1285,12 @@ RunResult execute_plan(const Plan &plan_in, const ExecOptions &opt) {
     heap_forget_all();
     if (ex.aborted) break;
   }
+  bool alloc_faults = false;
+  for (auto &o : plan.ops)
+    if (o.fault.type == Fault::ALLOC || o.fault.type == Fault::ALLOC_STICKY || o.fault.type == Fault::TREEALLOC || o.fault.type == Fault::NEWFAIL)
+      alloc_faults = true;
   // C16: a violation that only the C++ library shows is a difference between the two interfaces
-  if (!opt.raw && plan.backends == 3 && !any_aborted) {
+  if (!opt.raw && plan.backends == 3 && !any_aborted && !alloc_faults) {
     std::set<std::string> in_c;
     for (auto &v : res.violations) if (v.backend == 0) in_c.insert(v.cls() + "@" + std::to_string(v.op));
     std::vector<Violation> extra;
@@ -1290,8 +1304,9 @@ RunResult execute_plan(const Plan &plan_in, const ExecOptions &opt) {
       }
     for (auto &x : extra) res.violations.push_back(x);
   }
-  // C16: both libraries must have produced the same history
-  if (!opt.raw && plan.backends == 3 && !any_aborted) {
+  // C16: both libraries must have produced the same history.  Not with allocation faults in the plan: the two
+  // libraries legitimately issue different numbers of requests, so the k-th request is not the same event.
+  if (!opt.raw && plan.backends == 3 && !any_aborted && !alloc_faults) {
     size_t n = std::min(logs[0].size(), logs[1].size());
     size_t i = 0;
     for (; i < n; i++) if (logs[0][i] != logs[1][i]) break;
